@@ -328,7 +328,7 @@ scalar_t dense_table_wlearner_t::do_fit(const dataset_t& dataset, const indices_
                   });
 
     // OK, return and store the optimum feature across threads
-    return table_wlearner_t::set(dataset, samples, min_reduce(caches));
+    return table_wlearner_t::set(dataset, samples, min_reduce_feature(caches));
 }
 
 kbest_table_wlearner_t::kbest_table_wlearner_t()
@@ -363,7 +363,7 @@ scalar_t kbest_table_wlearner_t::do_fit(const dataset_t& dataset, const indices_
                   });
 
     // OK, return and store the optimum feature across threads
-    return table_wlearner_t::set(dataset, samples, min_reduce(caches));
+    return table_wlearner_t::set(dataset, samples, min_reduce_feature(caches));
 }
 
 ksplit_table_wlearner_t::ksplit_table_wlearner_t()
@@ -399,7 +399,7 @@ scalar_t ksplit_table_wlearner_t::do_fit(const dataset_t& dataset, const indices
                   });
 
     // OK, return and store the optimum feature across threads
-    return table_wlearner_t::set(dataset, samples, min_reduce(caches));
+    return table_wlearner_t::set(dataset, samples, min_reduce_feature(caches));
 }
 
 dstep_table_wlearner_t::dstep_table_wlearner_t()
@@ -434,7 +434,7 @@ scalar_t dstep_table_wlearner_t::do_fit(const dataset_t& dataset, const indices_
                   });
 
     // OK, return and store the optimum feature across threads
-    return table_wlearner_t::set(dataset, samples, min_reduce(caches));
+    return table_wlearner_t::set(dataset, samples, min_reduce_feature(caches));
 }
 
 bool table_wlearner_t::try_merge(const rwlearner_t& other)
